@@ -38,7 +38,7 @@ pub const CTORS: &[Ctor] = &[
 ];
 
 /// Names probed at every site: variables, template arguments, fields, defs, a defset, an undeclared name.
-pub const POOL: &[&str] = &["u", "w", "p", "q", "f", "g", "x", "y", "s", "bp", "zz", "bv", "h2"];
+pub const POOL: &[&str] = &["u", "w", "p", "q", "f", "g", "x", "y", "s", "bp", "zz", "bv", "h2", "ys"];
 
 pub const WRAPPERS: usize = 20;
 
@@ -189,8 +189,18 @@ impl Gen {
     /// `x` denotes the global def again
     fn bang_variables(&mut self, in_multiclass: bool, out: &mut Vec<Item>) {
         for v in ["bv", "x"] {
-            let e = E::BForeach(v.into(), Box::new(E::List(vec![int(1)])), Box::new(E::Bang("!add".into(), None, vec![id(v), int(1)])));
-            out.push(if in_multiclass { Item::Dump(e) } else { Item::Defvar { name: self.fresh(), value: e } });
+            let one = || Box::new(E::List(vec![int(1)]));
+            let add = |a: &str, b: E| Box::new(E::Bang("!add".into(), None, vec![id(a), b]));
+            // the variable of !foreach and !filter, the accumulator and the element of !foldl
+            let values = [
+                E::BForeach(v.into(), one(), add(v, int(1))),
+                E::BFilter(v.into(), one(), Box::new(E::Bang("!eq".into(), None, vec![id(v), int(1)]))),
+                E::BFoldl(Box::new(int(0)), one(), v.into(), "el".into(), add(v, id("el"))),
+                E::BFoldl(Box::new(int(0)), one(), "ac".into(), v.into(), add("ac", id(v))),
+            ];
+            for e in values {
+                out.push(if in_multiclass { Item::Dump(e) } else { Item::Defvar { name: self.fresh(), value: e } });
+            }
         }
     }
 
@@ -209,6 +219,10 @@ impl Gen {
             // a block-local variable, declared before the nested constructs
             inner.push(Item::Defvar { name: "w".into(), value: int(5) });
             inner.push(Item::Def { doc: vec![], blank: false, name: Some(format!("y{depth}")), parents: vec![CRef::with("Base", vec![int(2)])], body: None });
+        }
+        if c == Ctor::Defset {
+            // a member of the set: a global value like any other def, by its own name
+            inner.push(Item::Def { doc: vec![], blank: false, name: Some("ys".into()), parents: vec![CRef::with("Base", vec![int(3)])], body: None });
         }
         match c {
             Ctor::ForeachSingle => {
